@@ -38,6 +38,9 @@ def gen_script(rng, max_gates=24, max_in=6, max_ff=3, p_glitchy=0.2, style=None,
     n_sig = n_in + n_fl + 2 * n_ff
     unread = list(range(n_in)) + list(range(n_in + n_fl, n_sig))
     recent_bias = rng.choice([0.3, 0.6, 0.9])
+    layered = rng.random() < 0.35        # wide levels: gates of a layer read only signals of earlier layers
+    layer_end = n_sig                    # signals [0, layer_end) belong to earlier layers
+    layer_left = rng.randint(2, 7)
     for j in range(n_g):
         r = rng.random()
         if r < p_glitchy: kind = rng.choice(GLITCHY)
@@ -46,7 +49,10 @@ def gen_script(rng, max_gates=24, max_in=6, max_ff=3, p_glitchy=0.2, style=None,
         n = FIXED[kind] if kind in FIXED else rng.randint(2, 4)
         srcs = []
         for _ in range(n):
-            if unread and rng.random() < 0.5:
+            if layered:
+                cand = [u for u in unread if u < layer_end]
+                s = rng.choice(cand) if cand and rng.random() < 0.6 else rng.randrange(layer_end)
+            elif unread and rng.random() < 0.5:
                 s = unread.pop(rng.randrange(len(unread)))
             elif rng.random() < recent_bias:
                 s = max(0, n_sig - 1 - rng.randrange(min(n_sig, 6)))
@@ -57,6 +63,11 @@ def gen_script(rng, max_gates=24, max_in=6, max_ff=3, p_glitchy=0.2, style=None,
         gates.append([spell(rng, kind, n), srcs, rng.choice([0, 0, 2, 2, 1])])
         unread.append(n_sig)
         n_sig += 1
+        if layered:
+            layer_left -= 1
+            if layer_left <= 0:
+                layer_end = n_sig
+                layer_left = rng.randint(2, 7)
     # outputs: prefer unread signals so that little is left dangling, unless dangling gates are wanted
     if want_dangling is None: want_dangling = rng.random() < 0.35
     outs = []
@@ -80,8 +91,20 @@ class Built:
         self.sig_names = []
 
 
+_NETS = {}
+
+
 def build(script):
     """Construct the kyupy Circuit through the public API (Node/Line with explicit pins)."""
+    if script.get('net'):       # a shipped netlist
+        import contextlib, io
+        from kyupy import bench
+        if script['net'] not in _NETS:
+            _NETS[script['net']] = open(f"/repo/tests/{script['net']}.bench").read()
+        b = Built()
+        with contextlib.redirect_stdout(io.StringIO()):
+            b.circuit = bench.parse(_NETS[script['net']], name=script['net'])     # a fresh object each time (callers may edit it)
+        return b
     c = Circuit('t')
     b = Built()
     b.circuit = c
@@ -200,6 +223,7 @@ def _fan(c, fork, rd, mode, name):
 
 def shrink_script(script):
     """Candidates for a smaller construction script."""
+    if script.get('net'): return
     g = script['gates']
     n = len(g)
     k = max(1, n // 2)
